@@ -26,7 +26,7 @@ type SrvCfg struct {
 }
 
 type SrvStep struct {
-	Op    string `json:"op"` // anon | login | unknown | wrong | nochallenge | bl-add | bl-rm | wl-add | wl-rm | park | resume-good | resume-bad | restart
+	Op    string `json:"op"` // anon | login | unknown | wrong | nochallenge | bl-add | bl-rm | wl-add | wl-rm | park | resume-good | resume-bad | restart | rehs-same | rehs-other | rehs-wrong
 	Addr  int    `json:"addr"`
 	Key   int    `json:"key,omitempty"` // list operations: index into srvKeys
 	AtMs  int    `json:"at_ms"`
@@ -57,10 +57,17 @@ func genSrv(t *rapid.T) SrvCase {
 	ops := []string{"unknown", "unknown", "unknown", "wrong", "wrong", "nochallenge", "nochallenge", "login", "login", "login", "anon", "anon", "anon", "bl-add", "bl-add", "bl-rm", "wl-add", "wl-rm",
 		// park: phase one on a connection that is then kept with its pending challenge; resume-*: phase two on the oldest
 		// parked connection of the address (right / wrong response); restart: second server over the same storage
-		"park", "resume-good", "resume-good", "resume-bad", "restart"}
+		"park", "resume-good", "resume-good", "resume-bad", "restart",
+		// rehs-*: another handshake on a connection of the address that is already authenticated and still open
+		// (same client id / unknown id / challenge response out of the blue)
+		"rehs-same", "rehs-same", "rehs-other", "rehs-wrong"}
 	var bounds []int
 	T := 0
 	restarted := false
+	if rapid.Bool().Draw(t, "authFirst") {
+		// directed: an authenticated connection of the address exists before anything else happens to it
+		c.Steps = append(c.Steps, SrvStep{Op: "login", Addr: 0, AtMs: 0, N: rapid.IntRange(1, 2).Draw(t, "nauthed")})
+	}
 	if rapid.Bool().Draw(t, "parkFirst") {
 		// directed: connections parked before anything else happens to the address
 		c.Steps = append(c.Steps, SrvStep{Op: "park", Addr: 0, AtMs: 0, N: rapid.IntRange(1, 3).Draw(t, "nparked")})
@@ -88,7 +95,7 @@ func genSrv(t *rapid.T) SrvCase {
 		case "unknown", "wrong", "nochallenge":
 			s.N = rapid.SampledFrom([]int{1, 1, 2, c.Cfg.M, c.Cfg.M}).Draw(t, "n")
 			bounds = append(bounds, T+c.Cfg.WMs, T+c.Cfg.BanMs)
-		case "resume-bad":
+		case "resume-bad", "rehs-other", "rehs-wrong":
 			bounds = append(bounds, T+c.Cfg.WMs, T+c.Cfg.BanMs)
 		case "park":
 			s.N = rapid.IntRange(1, 2).Draw(t, "n")
@@ -107,7 +114,7 @@ func genSrv(t *rapid.T) SrvCase {
 	}
 	// closing attempts with good credentials
 	T = avoid(T+rapid.SampledFrom([]int{0, 45, 185}).Draw(t, "tailGap"), bounds)
-	c.Steps = append(c.Steps, SrvStep{Op: rapid.SampledFrom([]string{"login", "anon", "resume-good", "resume-good"}).Draw(t, "tailOp"), Addr: 0, AtMs: T, N: 1})
+	c.Steps = append(c.Steps, SrvStep{Op: rapid.SampledFrom([]string{"login", "anon", "resume-good", "resume-good", "rehs-same", "rehs-same"}).Draw(t, "tailOp"), Addr: 0, AtMs: T, N: 1})
 	return c
 }
 
@@ -167,8 +174,9 @@ type srvWorld struct {
 	trace  []string
 	feats  map[string]int
 	failed bool
-	parked [][]parkedConn // per address: connections holding a pending challenge
-	suffix string         // appended to violation keys of the current call (root-cause region)
+	parked [][]parkedConn         // per address: connections holding a pending challenge
+	authed [][]*miniserver.Client // per address: connections authenticated as client w.id and still open
+	suffix string                 // appended to violation keys of the current call (root-cause region)
 }
 
 type parkedConn struct {
@@ -327,7 +335,7 @@ func runSrv(t vkit.TB, c SrvCase) {
 	}
 	setup.CloseByPeer()
 	w := &srvWorld{t: t, c: &c, srv: srv, id: setup.ClientID, secret: setup.Secret, lists: newIPMModel(), feats: map[string]int{},
-		undet: make([]string, len(srvAddrs)), anon: make([][]rateObs, len(srvAddrs)), parked: make([][]parkedConn, len(srvAddrs))}
+		undet: make([]string, len(srvAddrs)), anon: make([][]rateObs, len(srvAddrs)), parked: make([][]parkedConn, len(srvAddrs)), authed: make([][]*miniserver.Client, len(srvAddrs))}
 	notes := map[string]int{}
 	for range srvAddrs {
 		w.bf = append(w.bf, newIPModel(c.Cfg.model(), notes))
@@ -412,6 +420,7 @@ func runSrv(t vkit.TB, c SrvCase) {
 			for ai := range w.bf {
 				w.bf[ai] = newIPModel(c.Cfg.model(), notes)
 				w.parked[ai] = nil
+				w.authed[ai] = nil
 			}
 			w.feats["restart"]++
 			w.trace = append(w.trace, fmt.Sprintf("%d:restart (second server over the same storage) @%v", si, w.now().Round(time.Microsecond)))
@@ -493,7 +502,51 @@ func runSrv(t vkit.TB, c SrvCase) {
 					w.feats["unexpected-outcome:"+kind2]++
 					w.undet[s.Addr] = "phase 2 answered " + kind2
 				}
+				if good && kind2 == "success" {
+					w.authed[s.Addr] = append(w.authed[s.Addr], cl)
+					w.feats["authenticated-open-connection"]++
+				}
 			}
+		case "rehs-same", "rehs-other", "rehs-wrong":
+			if len(w.authed[s.Addr]) == 0 {
+				w.feats["rehandshake-without-authenticated-connection"]++
+				break
+			}
+			// the most recent authenticated connection stays in the pool: it can be asked again
+			cl := w.authed[s.Addr][len(w.authed[s.Addr])-1]
+			w.suffix = "/rehandshake-on-authenticated-connection"
+			switch s.Op {
+			case "rehs-same":
+				kind, r1, _ := w.callR(si, s.Addr, cl, base(w.id), true, "handshake again (same client id, phase 1) on an authenticated connection")
+				if kind == "challenge" && r1 != nil && !w.failed {
+					req := base(w.id)
+					req.ChallengeResponse = miniserver.ComputeResponse(w.secret, r1.Challenge)
+					kind, _ = w.call(si, s.Addr, cl, req, true, "handshake again (same client id, phase 2) on an authenticated connection")
+					if kind != "success" && kind != "banned" && kind != "blacklisted" && kind != "none" && !w.failed {
+						w.feats["unexpected-outcome:"+kind]++
+						w.undet[s.Addr] = "re-handshake phase 2 answered " + kind
+					}
+				} else if kind != "banned" && kind != "blacklisted" && kind != "none" && !w.failed {
+					w.feats["unexpected-outcome:"+kind]++
+					w.undet[s.Addr] = "re-handshake phase 1 answered " + kind
+				}
+				if kind == "banned" || kind == "blacklisted" {
+					w.feats["refused:rehandshake-on-authenticated-connection-while-banned-or-blacklisted"]++
+				}
+			case "rehs-other":
+				kind, _ := w.call(si, s.Addr, cl, base(987654321), false, "handshake again (unknown client id) on an authenticated connection")
+				if kind == "banned" || kind == "blacklisted" {
+					w.feats["refused:rehandshake-on-authenticated-connection-while-banned-or-blacklisted"]++
+				}
+			case "rehs-wrong":
+				req := base(w.id)
+				req.ChallengeResponse = miniserver.ComputeResponse("not-the-secret", "never-issued-challenge")
+				kind, _ := w.call(si, s.Addr, cl, req, false, "handshake again (response without challenge) on an authenticated connection")
+				if kind == "banned" || kind == "blacklisted" {
+					w.feats["refused:rehandshake-on-authenticated-connection-while-banned-or-blacklisted"]++
+				}
+			}
+			w.suffix = ""
 		}
 		if w.failed {
 			return
@@ -518,7 +571,11 @@ func runSrv(t vkit.TB, c SrvCase) {
 	if w.feats["refused:parked-phase-two-while-banned-or-blacklisted"] > 0 {
 		class = "srv:parked-phase-two-refused-while-banned-or-blacklisted"
 	}
-	vkit.Case(class, goodRefused > 0 || w.feats["refused:parked-phase-two-while-banned-or-blacklisted"] > 0, srvSig(c))
+	if w.feats["refused:rehandshake-on-authenticated-connection-while-banned-or-blacklisted"] > 0 {
+		class = "srv:rehandshake-on-authenticated-connection-refused-while-banned-or-blacklisted"
+	}
+	vkit.Case(class, goodRefused > 0 || w.feats["refused:parked-phase-two-while-banned-or-blacklisted"] > 0 ||
+		w.feats["refused:rehandshake-on-authenticated-connection-while-banned-or-blacklisted"] > 0, srvSig(c))
 	for k, v := range w.feats {
 		for i := 0; i < v; i++ {
 			vkit.Class("srv:" + k)
@@ -538,7 +595,7 @@ func runSrv(t vkit.TB, c SrvCase) {
 }
 
 func TestHandshake(t *testing.T) {
-	vkit.Check(t, 96, 1920, func(t *rapid.T) {
+	vkit.Check(t, 112, 2240, func(t *rapid.T) {
 		runSrv(t, genSrv(t))
 	})
 }
